@@ -466,6 +466,102 @@ def explore(case, seed, n, res, stats, tier):
                 raise Bad("yield-without-accept", "%s alarm T=%d: more samples yielded than accepted" % (cfg, T))
 
 
+VALUED = [
+    ("""uniform(0,10)::u(1).
+uniform(0,10)::u(2).
+0.5::c.
+double(N,S) :- between(1,2,N), S is u(N)*2.
+high(N) :- between(1,2,N), X is u(N), X > 5.
+both :- high(1), c.
+query(u(1)). query(u(2)). query(double(1,S)). query(double(2,S)). query(high(1)). query(high(2)). query(c). query(both).
+""", "u"),
+    ("""normal(0,1)::x.
+exponential(2)::w.
+0.3::a; 0.7::b.
+pos :- V is x, V > 0.
+sum(S) :- S is x + w.
+mix :- pos, a.
+query(x). query(w). query(pos). query(sum(S)). query(a). query(b). query(mix).
+""", "x"),
+]
+
+
+def _val(v):
+    if isinstance(v, bool):
+        return v
+    try:
+        return float(v)
+    except Exception:
+        return v
+
+
+def explore_valued(seed, res, stats):
+    """Programs with continuous (valued) facts read through the function interface: no reference distribution, but
+    (a) each sample must be internally consistent (derived values follow from the sampled values) and
+    (b) history independence: an attempt of the reused engine equals the same attempt on a fresh engine."""
+    for pi, (text, kind) in enumerate(VALUED):
+        fac = Facade(pyrandom.Random(sub(seed, "valued", pi)), 0.0)
+        rec = Recorder(fac, capture_states=True, max_attempts=400)
+        outs = []
+        PL.CLOCK.reset(300000)
+        try:
+            with rec:
+                g = S.sample(PrologString(text), n=40, format="dict")
+                try:
+                    for s in g:
+                        outs.append({str(k).replace(" ", ""): _val(v) for k, v in s.items()})
+                finally:
+                    g.close()
+        finally:
+            PL.CLOCK.budget = None
+            PL.CLOCK.cb_budget = None
+        res["evaluations"] += 1
+        res["pools"]["valued"] = res["pools"].get("valued", 0) + 1
+        for k, d in enumerate(outs):
+            w = "valued program %d sample#%d" % (pi, k)
+            if kind == "u":
+                for n in (1, 2):
+                    u = d.get("u(%d)" % n)
+                    if isinstance(u, float):
+                        key = [kk for kk in d if kk.startswith("double(%d," % n)]
+                        # the value is part of the key: double(1,S) is reported as double(1,<value>)
+                        ok = any(d[kk] and abs(float(kk[len("double(%d," % n):-1]) - 2 * u) < 1e-6 for kk in key)
+                        if not ok:
+                            raise Bad("valued-inconsistent", "%s: u(%d)=%r but %s" % (w, n, u, {kk: d[kk] for kk in key}))
+                        if bool(d.get("high(%d)" % n)) != (u > 5):
+                            raise Bad("valued-inconsistent", "%s: u(%d)=%r but high(%d)=%r" % (w, n, u, n, d.get("high(%d)" % n)))
+            else:
+                x = d.get("x")
+                if isinstance(x, float) and bool(d.get("pos")) != (x > 0):
+                    raise Bad("valued-inconsistent", "%s: x=%r but pos=%r" % (w, x, d.get("pos")))
+        # history independence on attempts 1, middle, last
+        accepted_idx = [i for i, a in enumerate(rec.attempts) if a["accepted"]]
+        for k in sorted(set([1, len(accepted_idx) // 2, len(accepted_idx) - 1])):
+            if k < 0 or k >= len(accepted_idx):
+                continue
+            att = rec.attempts[accepted_idx[k]]
+            rng2 = pyrandom.Random()
+            rng2.setstate(att["state"])
+            fac2 = Facade(rng2, 0.0)
+            rec2 = Recorder(fac2)
+            with rec2:
+                g2 = S.sample(PrologString(text), n=1, format="dict")
+                try:
+                    s2 = next(g2)
+                except StopIteration:
+                    s2 = None
+                finally:
+                    g2.close()
+            stats["replayed_attempts"] = stats.get("replayed_attempts", 0) + 1
+            if s2 is None:
+                continue
+            d2 = {str(kk).replace(" ", ""): _val(v) for kk, v in s2.items()}
+            d1 = outs[k] if k < len(outs) else None
+            if d1 is not None and d1 != d2:
+                diff = {kk: (d1.get(kk), d2.get(kk)) for kk in set(d1) | set(d2) if d1.get(kk) != d2.get(kk)}
+                raise Bad("history-dependence", "valued program %d: sample #%d of a reused engine differs from the same sample on a fresh engine started from the same PRNG state: %s" % (pi, k, str(diff)[:200]))
+
+
 def new_result():
     return {"evaluations": 0, "nontrivial": [], "traces": [], "violations": [], "samples": [],
             "simulated_time": {"attempts": 0, "uniform_draws": 0}, "faults_injected": {"adversarial_draw": 0, "interrupt": 0},
@@ -490,6 +586,12 @@ def run_shard(shard):
     res = new_result()
     stats = {}
     seen = set()
+    try:
+        explore_valued(shard["seed"], res, stats)
+    except Bad as b:
+        seen.add(b.sig)
+        res["violations"].append({"signature": b.sig, "summary": b.why[:400], "match": {"signature": b.sig, "tags": ["valued"], "pe": False},
+                                  "replay": {"valued": True, "seed": shard["seed"], "case_digest": digest(("valued", shard["seed"]))}})
     for i in range(shard["programs"]):
         case = case_for(shard["seed"], i)
         if case is None:
@@ -533,6 +635,12 @@ def run_shard(shard):
 
 
 def replay(doc):
+    if doc.get("valued"):
+        try:
+            explore_valued(doc["seed"], new_result(), {})
+        except Bad as b:
+            return [{"signature": b.sig, "summary": b.why[:400], "match": {"signature": b.sig, "tags": ["valued"], "pe": False}, "replay": dict(doc)}]
+        return []
     prog = gen.parse_text(doc["program_text"])
     R = ref.Ref(prog, max_worlds=4096)
     case = {"prog": prog, "ref": R, "tags": R.tags()}
